@@ -8,6 +8,7 @@ Undecided: psi_near_field_56, the finite differences of the scalar potential, th
 convergence to the far field (bounded native sweep only).
 """
 import ast
+import os
 import z3
 from pyvc.engine import SObj, NDArr, SList, PyRaise, EngineError
 from pyvc.values import *      # noqa
@@ -19,6 +20,15 @@ from fractions import Fraction
 P = 'C04'
 R = z3.RealSort()
 N = 2
+
+
+def anchor(eng, name, cond, detail=''):
+    """a structural anchor of a slice: recorded as an obligation when the statements are where the contract expects them;
+    when they are not (the function was restructured) the unit is UNDECIDED, never a violation"""
+    if not cond:
+        from pyvc.source import Unresolved
+        raise Unresolved('%s: %s' % (name, detail))
+    eng.oblige(name, True, detail=detail)
 
 
 def sym_nd(shape, base, kind='real'):
@@ -159,20 +169,22 @@ def t_psi_select(eng):
     want = ['r', 'seg_len', 'i6']
     head = []
     for st in body:
-        if isinstance(st, ast.Assign) and len(st.targets) == 1 and isinstance(st.targets[0], ast.Name) and st.targets[0].id in want:
+        # the leading run of plain assignments to local names (r, seg_len, i6 and whatever helper locals precede them)
+        if isinstance(st, ast.Assign) and len(st.targets) == 1 and isinstance(st.targets[0], ast.Name):
             head.append(st)
         else:
             break
-    eng.oblige(n + 'selection-statements-found', [st.targets[0].id for st in head] == want, detail=str([ast.unparse(st)[:40] for st in head]))
+    names = [st.targets[0].id for st in head]
+    anchor(eng, n + 'selection-statements-found', all(w in names for w in want), detail=str(names))
     s4 = [st for st in body if isinstance(st, ast.Assign) and ast.unparse(st.targets[0]) == 's4']
-    eng.oblige(n + 'weight-statement-found', len(s4) == 1)
+    anchor(eng, n + 'weight-statement-found', len(s4) == 1)
     # between the selection and the weight nothing reassigns seg_len
     if len(s4) == 1:
         k0, k1 = len(head), body.index(s4[0])
         re = [ast.unparse(st)[:40] for st in body[k0:k1] for t in ast.walk(st)
               if isinstance(t, ast.Name) and t.id == 'seg_len' and isinstance(t.ctx, ast.Store) and not isinstance(st, ast.If)]
         eng.oblige(n + 'segment-length-not-reassigned-before-the-weight', not re, detail=str(re))
-    if len(head) != 3 or len(s4) != 1:
+    if len(s4) != 1:
         return
     m = SObj('Mininec', label='m')
     pu = SObj('Pulse_Container', label='pulses')
@@ -236,7 +248,7 @@ def t_image_mask(eng):
             stmts.append(st)
         else:
             break
-    eng.oblige(n + 'mask-statements-found', len(stmts) >= 1)
+    anchor(eng, n + 'mask-statements-found', len(stmts) >= 1)
     later = [st for st in loop.body[len(stmts):] for t in ast.walk(st)
              if isinstance(t, ast.Name) and t.id == 'cond' and isinstance(t.ctx, ast.Store)]
     eng.oblige(n + 'mask-not-reassigned-later-in-the-pass', not later)
@@ -331,8 +343,8 @@ def t_assembly(eng):
     Q = 'Mininec.compute_near_field'
     f, pre, loop, dropped = assembly_slice(eng)
     eng.name_real_quotients = True
-    eng.oblige(n + 'slice-found', len(pre) >= 6 and sorted(dropped) == ['r', 'self.near_field_coord'], detail=str((len(pre), dropped)))
-    NA = 2
+    anchor(eng, n + 'slice-found', len(pre) >= 6 and sorted(dropped) == ['r', 'self.near_field_coord'], detail=str((len(pre), dropped)))
+    NA = 3 if os.environ.get('VERIF_TIER_EFFECTIVE') == 'thorough' else 2      # pulses (thorough tier: one more)
     ground = eng.choose(2) == 1
     gcase = eng.choose(3) if ground else 0          # pulse 0: no grounded end / end 1 grounded / end 2 grounded
     m = SObj('Mininec', label='m')
@@ -365,6 +377,14 @@ def t_assembly(eng):
     # representation invariant of Pulse: gnd_sgn is -1 at the grounded end of a pulse and 1 elsewhere
     pc.fields.update({'idx': NDArr(list(range(NA))), 'seg_len': sl, 'ground': NDArr(gr),
                       'gnd_sgn': NDArr([[-1 if g else 1 for g in row] for row in gr])})
+    # further per-pulse data of the real container that the assembly does not use today (a change that starts using them is
+    # then decided, not undecided): direction signs are +1 or -1
+    dsg = sym_nd((NA, 2), 'dsg')
+    for row in dsg.data:
+        for v in row:
+            eng.assume(SV(z3.Or(term(v, True) == 1, term(v, True) == -1), 'bool'))
+    pc.fields['dir_sgn'] = dsg
+    pc.fields['sign'] = NDArr([[r_mul(dsg.data[p_][h_], -1 if gr[p_][h_] else 1) for h_ in range(2)] for p_ in range(NA)])
     eng.summaries['Pulse_Container.__len__'] = lambda e, a, k: NA
     eng.summaries['Mininec.image_iter'] = lambda e, a, k: SList([('conc', [1, -1] if ground else [1])])
     CXS = [R] * 6
@@ -524,7 +544,7 @@ U_ASM = Unit(P + '/compute_near_field-field-assembly', ['Mininec.compute_near_fi
              slices={'Mininec.compute_near_field': 'from `s0 = ...` to the end, for one observation point; dropped by name: the two statements '
                                                    'building the point grid (`r`, `self.near_field_coord`: C16) and the three result '
                                                    'initialisations before `s0` (frame: C14 assigns)'},
-             notes='bounded(shape): 2 pulses, 1 observation point; free space / ideal ground with pulse 0 ungrounded, grounded at end 1, at end 2; '
+             notes='bounded(shape): 2 pulses (3 at the thorough tier), 1 observation point; free space / ideal ground with pulse 0 ungrounded, grounded at end 1, at end 2; '
                    'all values symbolic; nf_helper and psi_near_field_56 by contract (uninterpreted functions of their arguments)',
              canaries=[Canary('difference-point-clamped-to-the-plane', 'Mininec.compute_near_field', _OneSidedBelowGround, [n_ for n_ in [P + '/compute_near_field[field assembly]/H-']]),
                        Canary('both-charge-terms-over-the-first-segment-length', 'Mininec.compute_near_field', _GradientOverFirstLengthTwice, [P + '/compute_near_field[field assembly]/pulse-term-']),
